@@ -139,6 +139,7 @@ def hypothesis_counts(cases, model):
         if b["wf"] and b["total"] and b["nofail"]: out[st]["C02_scripts_idempotent/C03_scripts/C01_scripts_mixed apply (wfB, stampTotalB, noFailB)"] += 1
         if b["static"]: out[st]["C20_scripts_no_abort applies (staticRolesB)"] += 1
         if b.get("cov"): out[st]["C20_trans_scripts_* / C05_trans_scripts_noHidden apply (covB: transitive static roles)"] += 1
+        if b.get("wfcov") and b["total"]: out[st]["C01_trans_scripts applies (wfCovB, stampTotalB: transitive static roles)"] += 1
     return {k: dict(v) for k, v in out.items()}
 
 
